@@ -109,7 +109,7 @@ class Emitter:
                 return f'({fn} {self.expr(e.args[0])})'
             if fn in ('math.pow', 'np.power') and len(e.args) == 2:
                 return self.pow(e.args[0], e.args[1])
-            if fn == 'math.exp' and len(e.args) == 1:
+            if fn in ('math.exp', 'np.exp') and len(e.args) == 1:
                 if self.fl['exp'] is None:
                     raise Untranslatable('exp in exact flavour')
                 return f'({self.fl["exp"]} {self.expr(e.args[0])})'
